@@ -142,33 +142,36 @@ def job_multi_bitmap(jc):
             cfgs = [mk_config(1, "cbdt", srcA, dict(bitmap_resolution=r1, use_pngquant=c1[0], use_zopflipng=c1[1], pngquant_flags="--quality 1")),
                     mk_config(2, "sbix", srcB, dict(bitmap_resolution=r2, use_pngquant=c2[0], use_zopflipng=c2[1], pngquant_flags="--quality 2"))]
             w = run_driver(cfgs, os.path.join(d, "build"))
-            return cfgs, w
+            # destination names are resolved now: _dest_for_src keeps state in function attributes,
+            # which a later replay (another temp dir) would disturb
+            dests = {str(src): (NE.bitmap_dest(src), NE.pngquant_dest(src), NE.zopflipng_dest(src)) for cfg in cfgs for src in cfg.masters[0].sources}
+            return cfgs, w, dests
 
         results = jc.explore(body)
         for r in results:
             if not jc.no_exception(r, inp, replay_multi_bitmap, "C20:multi:raises"):
                 continue
-            cfgs, w = r.value
+            cfgs, w, dests = r.value
             jc.reach(r, "ok")
             for pos, cfg in enumerate(cfgs):
                 tag = f"{'first' if pos == 0 else 'second'}:{_c(c1)}/{_c(c2)}:{'shared' if shared else 'disjoint'}"
                 props = {"bitmap_resolution": [], "pngquant_flags": [], "compression-input": [], "edge-unique": []}
                 for src in cfg.masters[0].sources:
-                    bm = NE.bitmap_dest(src)
+                    bm, pq_dest, zo_dest = dests[str(src)]
                     pe = producer(w, bm)
                     props["edge-unique"].append(z3.BoolVal(len(pe) == 1))
                     if len(pe) == 1:
                         props["bitmap_resolution"].append(core.as_term(pe[0]["variables"].get("res", -1)) == core.as_term(cfg.bitmap_resolution))
                     if cfg.use_pngquant:
-                        pq = producer(w, NE.pngquant_dest(src))
+                        pq = producer(w, pq_dest)
                         props["edge-unique"].append(z3.BoolVal(len(pq) == 1))
                         if len(pq) == 1:
                             props["pngquant_flags"].append(z3.BoolVal(pq[0]["variables"].get("pngquant_flags") == cfg.pngquant_flags))
                             props["compression-input"].append(z3.BoolVal(pq[0]["inputs"] == [str(bm)]))
                     if cfg.use_zopflipng:
-                        zo = producer(w, NE.zopflipng_dest(src))
+                        zo = producer(w, zo_dest)
                         props["edge-unique"].append(z3.BoolVal(len(zo) == 1))
-                        want_in = NE.pngquant_dest(src) if cfg.use_pngquant else bm
+                        want_in = pq_dest if cfg.use_pngquant else bm
                         if len(zo) == 1:
                             props["compression-input"].append(z3.BoolVal(zo[0]["inputs"] == [str(want_in)]))
                 for clause, conj in props.items():
@@ -237,23 +240,29 @@ def job_multi_vector(jc):
             cfgs = [mk_config(1, "glyf_colr_1", srcA, dict(clip_to_viewbox=k1, reuse_tolerance=core.real("t1", -1, 10), ascender=core.integer("asc1", 0, 2000), descender=core.integer("desc1", -1000, 0))),
                     mk_config(2, "picosvg", srcB, dict(clip_to_viewbox=k2, reuse_tolerance=core.real("t2", -1, 10), ascender=core.integer("asc2", 0, 2000), descender=core.integer("desc2", -1000, 0)))]
             w = run_driver(cfgs, os.path.join(d, "build"))
-            return cfgs, w
+            dests = {}
+            for ci, cfg in enumerate(cfgs):
+                for src in cfg.masters[0].sources:
+                    dd = NE.picosvg_dest(cfg.clip_to_viewbox, src)
+                    dests[(ci, str(src))] = (dd, NE.part_file_dest(dd))
+                dests[(ci, "inputs")] = [str(f) for f in NE._input_files(cfg, cfg.masters[0])]
+            return cfgs, w, dests
 
         results = jc.explore(body)
         for r in results:
             if not jc.no_exception(r, inp, replay_multi_vector, "C20:multi:raises"):
                 continue
-            cfgs, w = r.value
+            cfgs, w, dests = r.value
             jc.reach(r, "ok")
             for pos, cfg in enumerate(cfgs):
                 tag = f"{'first' if pos == 0 else 'second'}:clip{int(k1)}{int(k2)}:{'shared' if shared else 'disjoint'}"
                 props = {"picosvg-edge": [], "reuse_tolerance": [], "wh": []}
                 for src in cfg.masters[0].sources:
-                    dest = NE.picosvg_dest(cfg.clip_to_viewbox, src)
+                    dest, part_dest = dests[(pos, str(src))]
                     pe = producer(w, dest)
                     want_rule = "picosvg_clipped" if cfg.clip_to_viewbox else "picosvg_unclipped"
                     props["picosvg-edge"].append(z3.BoolVal(len(pe) == 1 and pe[0]["rule"] == want_rule))
-                    part = producer(w, NE.part_file_dest(dest))
+                    part = producer(w, part_dest)
                     if len(part) == 1:
                         props["reuse_tolerance"].append(core.as_term(part[0]["variables"].get("reuse_tolerance", -99)) == core.as_term(cfg.reuse_tolerance))
                         props["wh"].append(core.as_term(part[0]["variables"].get("wh", -99)) == core.as_term(cfg.ascender - cfg.descender))
@@ -270,7 +279,7 @@ def job_multi_vector(jc):
                     stem = Path(cfg.output_file).stem
                     ok = str(v.get("config_file")) == f"{stem}.toml" and str(v.get("fea_file")) == f"{stem}.fea" and str(v.get("glyphmap_file")) == f"{stem}.glyphmap"
                     gm = producer(w, f"{stem}.glyphmap")
-                    ok = ok and len(gm) == 1 and gm[0]["rule"] == cfg.glyphmap_generator and gm[0]["inputs"] == [str(f) for f in NE._input_files(cfg, cfg.masters[0])]
+                    ok = ok and len(gm) == 1 and gm[0]["rule"] == cfg.glyphmap_generator and gm[0]["inputs"] == dests[(pos, "inputs")]
                     fea = producer(w, f"{stem}.fea")
                     ok = ok and len(fea) == 1 and fea[0]["rule"] == "write_fea" and fea[0]["inputs"] == [f"{stem}.glyphmap"]
                 jc.prove(r, z3.BoolVal(ok), "font/glyphmap/fea edges of each config use that config's own config file, generator and input files", inp, replay_multi_vector,
